@@ -102,7 +102,7 @@ fn compare_all(base_spec: &proc::Spec, alt_cwd: &str, clocked_ok: bool, cx: &mut
     Ok(())
 }
 
-const TIME_TEMPLATES: [&str; 10] = [
+const TIME_TEMPLATES: [&str; 14] = [
     "{{ format_timestamp(value=bumped_timestamp, format=\"%Y-%m-%dT%H:%M:%S\") }}",
     "{{ format_timestamp(value=bumped_timestamp, format=\"%H\") }}.{{ format_timestamp(value=last_timestamp, format=\"%d\") }}",
     "{{ format_timestamp(value=bumped_timestamp, format=\"compact_datetime\") }}",
@@ -113,6 +113,11 @@ const TIME_TEMPLATES: [&str; 10] = [
     "{{ format_timestamp(value=bumped_timestamp, format=\"%W %U %j\") }}",
     "{{ hash(value=custom | json_encode(), length=16) }}",
     "{{ bumped_branch | upper }}/{{ bumped_branch | lower }}/{{ bumped_branch | title }}",
+    // lengths beyond one 64-bit digest / beyond what the function documents
+    "{{ hash(value=bumped_branch, length=17) }} {{ hash(value=bumped_branch, length=40) }}",
+    "{{ hash(value=bumped_commit_hash, length=64) }}|{{ hash(value=bumped_commit_hash, length=64) }}",
+    "{{ hash_int(value=bumped_branch, length=19) }} {{ hash_int(value=bumped_branch, length=30, allow_leading_zero=true) }}",
+    "{{ prefix(value=bumped_commit_hash, length=100) }} {{ sanitize(value=bumped_branch, preset=\"dotted\") }} {{ prefix_if(value=bumped_branch, prefix=\"+\") }}",
 ];
 
 #[derive(Debug, Clone, Hash, Serialize, Deserialize)]
@@ -135,7 +140,7 @@ fn day_edge_ts() -> BoxedStrategy<u64> {
     (0u64..84000, prop_oneof![0u64..50400, 36000u64..86400]).prop_map(|(d, s)| d * 86400 + s).boxed()
 }
 fn stdin_case() -> BoxedStrategy<StdinCase> {
-    (zg::mzerv(false), day_edge_ts(), day_edge_ts(), 0u8..4, 0usize..10, proptest::option::weighted(0.5, 0usize..22), prop::bool::weighted(0.25), prop_oneof![2 => Just(0u8), 3 => 0u8..128], prop_oneof![3 => Just(0u8), 1 => 1u8..4])
+    (zg::mzerv(false), day_edge_ts(), day_edge_ts(), 0u8..4, 0usize..14, proptest::option::weighted(0.5, 0usize..22), prop::bool::weighted(0.25), prop_oneof![2 => Just(0u8), 3 => 0u8..128], prop_oneof![3 => Just(0u8), 1 => 1u8..4])
         .prop_map(|(mut z, t1, t2, render, template, preset, flow, extra, unset)| {
             // no wall-clock path in this check: a dirty state replaces the timestamp by "now"
             // (bracketed in C02/C04/C06), so every compared run here is clock-free and must be identical
@@ -210,6 +215,10 @@ pub struct GitCase {
     pub render: u8,
     pub template: usize,
     pub preset: Option<usize>,
+    /// 0: clean work tree; 1: untracked file + --no-dirty; 2: modified file + --clean
+    /// (a dirty state switched off by a flag is clock-free as well)
+    #[serde(default)]
+    pub dirty_override: u8,
 }
 fn check_git(c: &GitCase, cx: &mut Cx) -> Res {
     let mut repo = match Repo::new() {
@@ -238,12 +247,25 @@ fn check_git(c: &GitCase, cx: &mut Cx) -> Res {
     if c.flow {
         args.push("--post-mode=commit".into());
     }
+    match c.dirty_override {
+        1 => args.push("--no-dirty".into()),
+        2 => args.push("--clean".into()),
+        _ => {}
+    }
     cx.nt();
     let clocked = false;
     cx.label_if(c.flow, "flow");
     cx.label("git-source");
+    cx.label_if(c.dirty_override != 0, "dirty-tree-switched-off-by-flag");
     let spec = proc::Spec { args: args.clone(), cwd: Some("/".into()), ..Default::default() };
     compare_all(&spec, "/usr", clocked, cx)?;
+    if c.dirty_override != 0 {
+        // the same command a good second later: nothing here may come from the wall clock
+        let first = proc::run(&spec);
+        std::thread::sleep(std::time::Duration::from_millis(1100));
+        let later = proc::run(&spec);
+        ensure!(first.code == later.code && first.stdout == later.stdout, "the same command 1.1 s later prints something else (work tree dirty, dirty state switched off by a flag): {:?} vs {:?} (args {args:?})", first.out_str(), later.out_str());
+    }
     // without -C from inside the repository: same output as with -C from elsewhere
     let t0 = now();
     let with_c = proc::run(&spec);
@@ -342,11 +364,16 @@ pub fn property() -> Property {
         "env-matrix-git",
         (100, 1_200),
         |_| {
-            (proptest::collection::vec(c02::op_strategy(), 0..8), prop::bool::weighted(0.4), 0u8..4, 0usize..10, proptest::option::weighted(0.5, 0usize..22))
-                .prop_map(|(mut ops, flow, render, template, preset)| {
+            (proptest::collection::vec(c02::op_strategy(), 0..8), prop::bool::weighted(0.4), 0u8..4, 0usize..14, proptest::option::weighted(0.5, 0usize..22), prop_oneof![3 => Just(0u8), 1 => Just(1u8), 1 => Just(2u8)])
+                .prop_map(|(mut ops, flow, render, template, preset, dirty_override)| {
                     ops.insert(0, Op::Tag { name: 1, annotated: false, at: None });
                     ops.push(Op::Clean); // clock-free: see stdin_case
-                    GitCase { ops, flow, render, template, preset }
+                    match dirty_override {
+                        1 => ops.push(Op::DirtyUntracked),
+                        2 => ops.push(Op::DirtyModify),
+                        _ => {}
+                    }
+                    GitCase { ops, flow, render, template, preset, dirty_override }
                 })
                 .boxed()
         },
